@@ -10,6 +10,8 @@ def project(kind, case, step, op, line):
     """metadata records with their timestamps; outcomes of the setters; bytes and lengths"""
     if line is None:
         return None
+    if op.startswith("setsame"):
+        return "-"          # judged by same_oracle on the implementation's transcript (the model has no such operation)
     return histprop.abstract_errors(line)
 
 
@@ -60,7 +62,51 @@ def corpus_cases():
                 c.op("removefile", vfx.ps(t, "d/x")); c.op("metadata", vfx.ps(t, "d"))
             c.op("snap", t)
             cases.append(c)
-    return cases + link_cases() + failed_call_cases()
+    return cases + link_cases() + failed_call_cases() + same_value_cases()
+
+
+def same_value_cases():
+    """a setter called with exactly the value metadata() reports (the harness op `setsame`): it answers as the same setter
+    does for any other value - in particular an unsupported setter stays not-supported - and changes nothing"""
+    rng = random.Random(79)
+    T = hist.TIMES[4]
+    cases = []
+    for kind in ("mem", "phys", "alt_mem", "alt_phys", "ovl_mm", "ovl_pp", "ovl_sub", "alt_alt"):
+        c = vfx.Case("c19_same_%s" % kind)
+        g = hist.build_config(c, kind, rng)
+        c.cfg = g
+        t = g.target
+        c.op("createdir", vfx.ps(t, "d"))
+        hist.write_file(c, t, "f", b"content")
+        if g.prepop:
+            lo, sub = g.prepop[0]
+            hist.write_file(c, lo, (sub[1:] + "/" if sub else "") + "low", b"lower bytes")
+        c.same = []
+        for tgt in ("f", "d", "low", "missing"):
+            for fld, opk in (("c", "setctime"), ("m", "setmtime"), ("a", "setatime")):
+                md = c.op("metadata", vfx.ps(t, tgt))
+                same = c.op("setsame", fld, vfx.ps(t, tgt))       # before any explicit value was set: the value of now()
+                other = c.op(opk, vfx.ps(t, tgt), T)
+                again = c.op("setsame", fld, vfx.ps(t, tgt))      # and with the explicit value just set (if it was)
+                c.same.append((same, other, md)); c.same.append((again, other, md))
+                c.op("metadata", vfx.ps(t, tgt))
+        c.op("snap", t)
+        cases.append(c)
+    return cases
+
+
+def same_oracle(cases, mlines, ilines):
+    out = []
+    for c in cases:
+        for (i, j, md) in getattr(c, "same", []):
+            a, b = ilines.get(("r", c.name, i)) or "", ilines.get(("r", c.name, j)) or ""
+            if a == "ok:optstr:none" or not (ilines.get(("r", c.name, md)) or "").startswith("ok"):
+                continue        # no current value to call the setter with
+            if hist.outcome_class(histprop.abstract_errors(a)) != hist.outcome_class(histprop.abstract_errors(b)):
+                out.append({"case": c.name, "case_text": c.text(), "step": i, "op": c.ops[i], "kind": "r",
+                            "model": mlines.get(("r", c.name, j)), "impl": a, "violates": True,
+                            "note": "a time setter called with the entry's current value answers %s, with another value %s" % (a[:80], b[:80])})
+    return out
 
 
 def failed_call_cases():
@@ -143,7 +189,7 @@ def link_cases():
 MIX = ["settime"] * 8 + ["createfile"] * 3 + ["append"] * 3 + ["createdir"] * 2 + ["metadata"] * 2 + ["copyfile", "removefile"]
 P = histprop.HistProp(
     "C19", CONFIGS, typed=True, mix=MIX, with_times=True, project=project, quick_cases=8, thorough_cases=100,
-    nops=(10, 20), allow_big=False, corpus_cases=corpus_cases,
+    nops=(10, 20), allow_big=False, corpus_cases=corpus_cases, oracle=same_oracle,
     rule=("histories mixing set_creation/modification/access_time (values: epoch, +-10^9 s, sub-second parts, 1 ns, "
           "year 2100) with write sessions, appends and copies on files and directories; every metadata record of every "
           "snapshot is compared including its three timestamps (explicitly set values exactly, values of now() as 'auto'); "
